@@ -54,9 +54,9 @@ pub fn op_strategy() -> impl Strategy<Value = Op> {
         1 => Just(Op::Top3),
         2 => prop_oneof![(0usize..12).prop_map(Op::Discard), Just(Op::Discard(usize::MAX)), Just(Op::Discard(usize::MAX - 1))],
         2 => (0u8..5).prop_map(Op::DiscardNear),
-        5 => prop_oneof![12 => 0u8..7, 1 => 28u8..70].prop_map(Op::PushMany),
-        3 => prop_oneof![12 => 0u8..7, 1 => 28u8..70].prop_map(Op::TryExtend),
-        4 => (prop_oneof![12 => 0u8..7, 1 => 28u8..70], 0u8..3, 0u8..6).prop_map(|(k, lo, hi)| Op::TryExtendHint(k, lo, hi)),
+        5 => prop_oneof![12 => 0u8..7, 3 => 7u8..72].prop_map(Op::PushMany),
+        3 => prop_oneof![12 => 0u8..7, 3 => 7u8..72].prop_map(Op::TryExtend),
+        4 => (prop_oneof![12 => 0u8..7, 3 => 7u8..72], 0u8..3, 0u8..6).prop_map(|(k, lo, hi)| Op::TryExtendHint(k, lo, hi)),
         2 => prop_oneof![(0usize..10).prop_map(Op::SetMax), Just(Op::SetMax(usize::MAX))],
         2 => (0u8..5).prop_map(Op::SetMaxNear),
         1 => Just(Op::Query),
@@ -577,7 +577,7 @@ fn zst_strategy() -> impl Strategy<Value = ZHist> {
 }
 
 pub fn run(ctx: &mut Ctx) {
-    ctx.rule = "histories Vec<Op> over push/pop/pop2/pop3/top/top2/top3/discard/push_many/try_extend(plain iterator)/set_max_stack_size/queries on Stack<u16> and Stack<String>, unique values per history, capacities {0,1,2,3,5,8,33,64,100,usize::MAX-1,usize::MAX}, bulk insertions of 0..6 and occasionally 28..69 elements, try_extend iterators without a size hint and with valid but imprecise hints; lock-step against a Vec+capacity model after every op; plus histories on Stack<()> (zero-sized elements) with capacities up to usize::MAX and bulk insertions whose size added to the current size does not fit in a usize. non-trivial = length >= 5 with >= 1 failing op and >= 1 multi-element op; distinct by JSON encoding of the history".into();
+    ctx.rule = "histories Vec<Op> over push/pop/pop2/pop3/top/top2/top3/discard/push_many/try_extend(plain iterator)/set_max_stack_size/queries on Stack<u16> and Stack<String>, unique values per history, capacities {0,1,2,3,5,8,33,64,100,usize::MAX-1,usize::MAX}, bulk insertions of 0..6 and, less often, any count up to 71, try_extend iterators without a size hint and with valid but imprecise hints; lock-step against a Vec+capacity model after every op; plus histories on Stack<()> (zero-sized elements) with capacities up to usize::MAX and bulk insertions whose size added to the current size does not fit in a usize. non-trivial = length >= 5 with >= 1 failing op and >= 1 multi-element op; distinct by JSON encoding of the history".into();
     ctx.assumptions.push("zero-element insertion above a lowered maximum is unconstrained; is_full only compared while size <= max".into());
     let (n, len) = ctx.tier.pick((200_000, 40), (3_000_000, 400));
     ctx.run_prop("hist_u16", n, || hist_strategy(len), oracle_u16);
